@@ -232,8 +232,8 @@ func (fr *Frame) checkFrame(r returnInfo, ct *FuncContract, env *specEnv) {
 	}
 	for _, key := range sortedKeys(r.st.heap) {
 		cur := r.st.heap[key]
-		if strings.HasPrefix(key, "Box.") {
-			continue
+		if strings.HasPrefix(key, "Box.") || strings.HasPrefix(key, "Local.") {
+			continue // boxes are immutable values; frame-local variables are invisible to the caller
 		}
 		old := fx.heapGet(fx.entry, key, fx.keySort[key])
 		if cur.S == old.S {
